@@ -5,9 +5,15 @@ From MV Require Import Symmetry.Table Symmetry.Affine Reflect.GroupChecks Reflec
 Open Scope Z_scope.
 
 Lemma normalises_sound G n :
-  normalises G n = true -> forall g, In g G -> In (op_compose n (op_compose g (op_inv n))) G.
+  normalises G n = true ->
+  op_compose n (op_inv n) = idop /\ op_compose (op_inv n) n = idop
+  /\ forall g, In g G -> In (op_compose n (op_compose g (op_inv n))) G
+                         /\ In (op_compose (op_inv n) (op_compose g n)) G.
 Proof.
-  unfold normalises. intros H g Hg. rewrite forallb_forall in H. apply op_mem_In. apply H. exact Hg.
+  unfold normalises. cbv zeta. rewrite !andb_true_iff. intros [[H1 H2] H].
+  split; [apply op_eqb_eq; exact H1|]. split; [apply op_eqb_eq; exact H2|].
+  intros g Hg. rewrite forallb_forall in H. specialize (H g Hg). apply andb_true_iff in H.
+  split; apply op_mem_In; tauto.
 Qed.
 
 Lemma preserves_metric_sound sg r :
@@ -58,7 +64,9 @@ Lemma norm_ok_parts sg G tr ws rn cs :
   norm_ok sg G tr ws rn cs = true ->
   exists n, norm_to_op rn = Some n
     /\ (mdet (fst n) = 1 \/ mdet (fst n) = -1)
-    /\ (forall g, In g G -> In (op_compose n (op_compose g (op_inv n))) G)
+    /\ (op_compose n (op_inv n) = idop /\ op_compose (op_inv n) n = idop
+        /\ forall g, In g G -> In (op_compose n (op_compose g (op_inv n))) G
+                               /\ In (op_compose (op_inv n) (op_compose g n)) G)
     /\ (forall b, In b (metric_basis sg) -> mmul (mtrans (fst n)) (mmul b (fst n)) = b)
     /\ (all_proper G = true -> mdet (fst n) = 1)
     /\ perm_wellformed (map iw_letter ws) (n_perm rn) = true
@@ -67,11 +75,33 @@ Proof.
   unfold norm_ok. destruct (norm_to_op rn) as [n|]; [|discriminate].
   intros H. rewrite !andb_true_iff in H.
   destruct H as [[[[[[_ Hu] Hn] Hm] Hh] Hp] Hl].
-  exists n. split; [reflexivity|]. repeat split.
-  - unfold unimodular in Hu. rewrite orb_true_iff, !Z.eqb_eq in Hu. exact Hu.
-  - apply normalises_sound. exact Hn.
-  - apply preserves_metric_sound. exact Hm.
-  - apply handed_ok_sound. exact Hh.
-  - exact Hp.
-  - exact Hl.
+  exists n. split; [reflexivity|].
+  split; [unfold unimodular in Hu; rewrite orb_true_iff, !Z.eqb_eq in Hu; exact Hu|].
+  split; [apply normalises_sound; exact Hn|].
+  split; [apply preserves_metric_sound; exact Hm|].
+  split; [apply handed_ok_sound; exact Hh|].
+  split; [exact Hp | exact Hl].
+Qed.
+
+Lemma group_inverses_sound G : group_inverses G = true ->
+  forall g, In g G -> exists gi, In gi G /\ op_compose g gi = idop /\ op_compose gi g = idop.
+Proof.
+  unfold group_inverses. rewrite forallb_forall. intros H g Hg. specialize (H g Hg).
+  rewrite !andb_true_iff in H. destruct H as [[H1 H2] H3]. exists (op_inv g).
+  split; [apply op_mem_In; exact H1|]. split; apply op_eqb_eq; assumption.
+Qed.
+
+(* products of isometries are isometries *)
+Lemma mtrans_mmul a b : mtrans (mmul a b) = mmul (mtrans b) (mtrans a).
+Proof. destr_m3 a; destr_m3 b. unfold mtrans, mmul, mcol, dot3; simpl.
+  repeat (match goal with |- (_, _) = (_, _) => apply f_equal2 end); ring. Qed.
+Lemma mmul_assoc a b c : mmul (mmul a b) c = mmul a (mmul b c).
+Proof. destr_m3 a; destr_m3 b; destr_m3 c. unfold mmul, mcol, dot3; simpl.
+  repeat (match goal with |- (_, _) = (_, _) => apply f_equal2 end); ring. Qed.
+Lemma metric_product r s b :
+  mmul (mtrans r) (mmul b r) = b -> mmul (mtrans s) (mmul b s) = b ->
+  mmul (mtrans (mmul r s)) (mmul b (mmul r s)) = b.
+Proof.
+  intros Hr Hs. rewrite mtrans_mmul. rewrite <- (mmul_assoc b r s). rewrite (mmul_assoc (mtrans s) (mtrans r)).
+  rewrite <- (mmul_assoc (mtrans r)). rewrite Hr. exact Hs.
 Qed.
